@@ -1,6 +1,7 @@
 import Proofs.CoherenceWeights
 import Proofs.MutWireGenEq
 import Proofs.OptWrapGenEq
+import Proofs.RegistryGenEq
 
 /-!
 # C02 — after any mutation an agent is coherent: optimizers, targets and critics follow
@@ -655,5 +656,289 @@ theorem C02_rebuilt_optimizer_coherent (nets : List NetAttr) (lrs : List Rat) (o
     optCoherent nets lrs (rebuildOpt nets lrs o) = true := by
   simp [optCoherent, rebuildOpt, expected, List.map_map, Function.comp_def]
 
+
+end Coherence
+
+namespace Coherence
+
+/-! ## the registry: what the library's validation (`_registry_init`, run by the metaclass after `__init__`) enforces -/
+
+theorem find?_policy_some (gs : List RGroup) (h : ∃ g ∈ gs, g.policy = true) :
+    ∃ g, gs.find? (·.policy) = some g ∧ g ∈ gs ∧ g.policy = true := by
+  obtain ⟨g, hg, hp⟩ := h
+  cases hf : gs.find? (·.policy) with
+  | none => exact absurd hp (by simpa using List.find?_eq_none.mp hf g hg)
+  | some g' => exact ⟨g', rfl, List.mem_of_find?_eq_some hf, by simpa using List.find?_some hf⟩
+
+/-- **What acceptance gives.**  A registry the constructor accepts has a group, `registry.policy` is not `None` and
+    names the evaluation network of a group flagged as policy, every evolvable attribute of the agent is an evaluation
+    network, a shared network or an optimizer of the registry, and every hyper-parameter to mutate is an attribute. -/
+theorem C02_registry_accepted_sound (r : RegData) (h : WellFormedRegistry r) :
+    r.groups ≠ [] ∧ (∃ e, r.policy = some e ∧ ∃ g ∈ r.groups, g.policy = true ∧ g.eval = e) ∧
+    (∀ a ∈ r.evolvable, a ∈ r.registered) ∧ ∀ hp ∈ r.hps.getD [], hp ∈ r.attrs := by
+  obtain ⟨h1, h2, h3, h4⟩ := h
+  obtain ⟨g, hf, hg, hp⟩ := find?_policy_some r.groups h3
+  exact ⟨h1, ⟨g.eval, by simp [RegData.policy, hf], g, hg, hp, rfl⟩, h2, h4⟩
+
+theorem mem_registered_perm (r s : RegData) (hg : r.groups.Perm s.groups) (ho : r.opts.Perm s.opts) (a : Nat) :
+    a ∈ r.registered ↔ a ∈ s.registered := by
+  simp only [RegData.registered, List.mem_append, List.mem_map, List.mem_flatMap, hg.mem_iff, ho.mem_iff]
+
+/-- **The validation does not depend on the order of registration**: permuting the groups and the optimizers (the order
+    of `register_network_group` calls and of `OptimizerWrapper` assignments in `__init__`) does not change the verdict. -/
+theorem C02_registry_validation_order_invariant (r s : RegData) (hg : r.groups.Perm s.groups) (ho : r.opts.Perm s.opts)
+    (he : r.evolvable = s.evolvable) (ha : r.attrs = s.attrs) (hh : r.hps = s.hps) :
+    WellFormedRegistry r ↔ WellFormedRegistry s := by
+  have hne : r.groups ≠ [] ↔ s.groups ≠ [] := by
+    constructor
+    · intro h hs; rw [hs] at hg; exact h hg.eq_nil
+    · intro h hr; rw [hr] at hg; exact h hg.symm.eq_nil
+  simp only [WellFormedRegistry, hne, mem_registered_perm r s hg ho, he, ha, hh, hg.mem_iff]
+
+/-- with exactly one policy group (NOT enforced, see the witnesses) the `registry.policy` lookup is order-independent -/
+theorem C02_registry_policy_order_invariant (r s : RegData) (hg : r.groups.Perm s.groups) (h1 : r.OnePolicy) :
+    r.policy = s.policy := by
+  unfold RegData.policy
+  rw [← List.head?_filter, ← List.head?_filter]
+  have hp := hg.filter (·.policy)
+  unfold RegData.OnePolicy at h1
+  obtain ⟨g, hgf⟩ := List.length_eq_one_iff.mp h1
+  rw [hgf] at hp ⊢
+  rw [List.perm_singleton.mp hp.symm]
+
+/-- the lookup finds THE policy when there is exactly one -/
+theorem C02_registry_one_policy_lookup (r : RegData) (h1 : r.OnePolicy) (g : RGroup) (hg : g ∈ r.groups) (hp : g.policy = true) :
+    r.policy = some g.eval := by
+  unfold RegData.policy
+  rw [← List.head?_filter]
+  unfold RegData.OnePolicy at h1
+  obtain ⟨g', hgf⟩ := List.length_eq_one_iff.mp h1
+  have : g ∈ r.groups.filter (·.policy) := List.mem_filter.mpr ⟨hg, by simpa using hp⟩
+  rw [hgf] at this ⊢
+  simp at this
+  simp [this]
+
+/-- registering one more group / assigning one more optimizer never turns an accepted registry into a rejected one -/
+theorem C02_registry_accepted_monotone (r : RegData) (h : WellFormedRegistry r) (g : RGroup) (name : Nat)
+    (w : Option (List Nat × Nat × Bool)) :
+    WellFormedRegistry (r.addGroup g) ∧ WellFormedRegistry (r.setOpt name w) := by
+  obtain ⟨h1, h2, ⟨gp, hgp, hpp⟩, h4⟩ := h
+  constructor
+  · refine ⟨by simp [RegData.addGroup], fun a ha => ?_, ⟨gp, by simp [RegData.addGroup, hgp], hpp⟩, h4⟩
+    have := h2 a ha
+    simp only [RegData.registered, RegData.addGroup, List.mem_append, List.mem_map, List.mem_flatMap] at this ⊢
+    rcases this with (⟨x, hx, e⟩ | ⟨x, hx, e⟩) | h
+    · exact Or.inl (Or.inl ⟨x, Or.inl hx, e⟩)
+    · exact Or.inl (Or.inr ⟨x, Or.inl hx, e⟩)
+    · exact Or.inr h
+  · have key : ∀ r1 : RegData, r1.groups = r.groups → r1.evolvable = r.evolvable → r1.hps = r.hps →
+        (∀ a, a ∈ r.registered → a ∈ r1.registered) → (∀ a, a ∈ r.attrs → a ∈ r1.attrs) → WellFormedRegistry r1 := by
+      intro r1 e1 e2 e3 e4 e5
+      exact ⟨by rw [e1]; exact h1, fun a ha => e4 a (h2 a (e2 ▸ ha)), ⟨gp, e1 ▸ hgp, hpp⟩, fun x hx => e5 x (h4 x (e3 ▸ hx))⟩
+    unfold RegData.setOpt
+    rcases w with _ | ⟨nets, lr, multi⟩
+    · exact key _ rfl rfl rfl (fun a ha => ha) (fun a ha => by simp [ha])
+    · by_cases hc : (r.opts.map (·.name)).contains name = true
+      · simp only [hc, if_true]
+        exact key _ rfl rfl rfl (fun a ha => ha) (fun a ha => by simp [ha])
+      · have hc' : (r.opts.map (·.name)).contains name = false := by simpa using hc
+        simp only [hc', Bool.false_eq_true, if_false]
+        refine key _ rfl rfl rfl (fun a ha => ?_) (fun a ha => by simp [ha])
+        simp only [RegData.registered, List.mem_append, List.mem_map] at ha ⊢
+        rcases ha with h | ⟨x, hx, e⟩
+        · exact Or.inl h
+        · exact Or.inr ⟨x, Or.inl hx, e⟩
+
+/-! ### what the validation does NOT enforce: registries the library accepts that violate a hypothesis of the wiring theorems -/
+
+open RegistryGen RegistryGenEq in
+/-- two groups flagged as policy: accepted; `registry.policy` answers the first, and swapping the two registrations
+    changes the answer -/
+def regTwoPolicies : RegistryData :=
+  { registry := { groups := [{ eval := 0, shared := some [2], policy := true, multiagent := false },
+                             { eval := 1, shared := some [3], policy := true, multiagent := false }],
+                  optimizers := [{ name := 4, networks := [0], lr := 5, multiagent := false },
+                                 { name := 6, networks := [1], lr := 5, multiagent := false }],
+                  hooks := [], hp_config := some [5] },
+    evolvable := [0, 1, 2, 3, 4, 6], attrs := [0, 1, 2, 3, 4, 5, 6] }
+
+open RegistryGen in
+def regSwapped : RegistryData :=
+  { regTwoPolicies with registry := { regTwoPolicies.registry with groups := regTwoPolicies.registry.groups.reverse } }
+
+open RegistryGen in
+/-- a DQN-like registry (actor 0, target 1, optimizer 2 with lr attribute 3) with the optimizer's fields as parameters -/
+def regWith (nets : List Nat) (lr : Nat) (multi : Bool) (shared2 : Option (List Nat)) : RegistryData :=
+  { registry := { groups := [{ eval := 0, shared := some [1], policy := true, multiagent := false },
+                             { eval := 4, shared := shared2, policy := false, multiagent := false }],
+                  optimizers := [{ name := 2, networks := nets, lr := lr, multiagent := multi }],
+                  hooks := [], hp_config := some [3] },
+    evolvable := [0, 1, 2, 4], attrs := [0, 1, 2, 3, 4] }
+
+open RegistryGen RegistryGenEq in
+/-- **Not enforced (decided witnesses).**  The constructor accepts registries with (1) two policies, (2) an optimizer
+    registered for a shared (target) network or for a name no group knows, (3) a list optimizer registered for two
+    network attributes, (4) one network shared by two groups / both evaluation and shared, (5) an optimizer whose
+    learning-rate attribute does not exist.  `OnePolicy`, `OptsEval` (`DescOK.optsEval`), `OptShape` (`OptShapeOK`),
+    `RolesFunctional` (a `Role` per network) and `LrExists` therefore remain hypotheses about the algorithm's `__init__`;
+    the well-formed one (`regWith [0] 3 false none`) satisfies all of them. -/
+theorem C02_source_translation_registry_not_enforced_witness :
+    (registryAccepted regTwoPolicies = true ∧ ¬ (toModel regTwoPolicies).OnePolicy) ∧
+    (registryAccepted (regWith [1] 3 false none) = true ∧ ¬ (toModel (regWith [1] 3 false none)).OptsEval) ∧
+    (registryAccepted (regWith [9] 3 false none) = true ∧ ¬ (toModel (regWith [9] 3 false none)).OptsEval) ∧
+    (registryAccepted (regWith [0, 4] 3 true none) = true ∧ ¬ (toModel (regWith [0, 4] 3 true none)).OptShape) ∧
+    (registryAccepted (regWith [0] 3 false (some [1])) = true ∧ ¬ (toModel (regWith [0] 3 false (some [1]))).RolesFunctional) ∧
+    (registryAccepted (regWith [0] 3 false (some [0])) = true ∧ ¬ (toModel (regWith [0] 3 false (some [0]))).RolesFunctional) ∧
+    (registryAccepted (regWith [0] 7 false none) = true ∧ ¬ (toModel (regWith [0] 7 false none)).LrExists) ∧
+    (registryAccepted (regWith [0] 3 false none) = true ∧
+      let m := toModel (regWith [0] 3 false none)
+      m.OnePolicy ∧ m.OptsEval ∧ m.OptShape ∧ m.RolesFunctional ∧ m.LrExists) := by
+  decide +kernel
+
+open RegistryGen RegistryGenEq in
+/-- `registry.policy` and `MutationRegistry.__eq__` DO depend on the registration order: with two policy groups the
+    lookup answers whichever was registered first, and two registries with the same groups in another order are unequal -/
+theorem C02_source_translation_registry_order_witness :
+    registryAccepted regTwoPolicies = true ∧ registryAccepted regSwapped = true ∧
+    policy regTwoPolicies.registry = some 0 ∧ policy regSwapped.registry = some 1 ∧
+    registry_eq regTwoPolicies.registry regSwapped.registry = false ∧
+    registry_eq regTwoPolicies.registry regTwoPolicies.registry = true := by
+  decide +kernel
+
+open RegistryGen RegistryGenEq in
+/-- `OptimizerConfig.__eq__` ignores the learning-rate attribute: registries whose optimizers differ only in `lr` are equal -/
+theorem C02_source_translation_registry_eq_ignores_lr_witness :
+    regWith [0] 3 false none ≠ regWith [0] 7 false none ∧
+    registry_eq (regWith [0] 3 false none).registry (regWith [0] 7 false none).registry = true := by
+  decide +kernel
+
+/-! ### restated over the GENERATED definitions -/
+
+open RegistryGen RegistryGenEq in
+/-- generated `_registry_init` accepts exactly the `WellFormedRegistry` registries and raises `AttributeError` otherwise -/
+theorem C02_source_translation_registry_accepted_iff (r : RegistryData) :
+    (registryAccepted r = true ↔ WellFormedRegistry (toModel r)) ∧
+    (registryAccepted r = false → registry_init r = .error "AttributeError") := by
+  refine ⟨gen_registryAccepted_iff r, fun h => ?_⟩
+  rw [registryAccepted, gen_registry_init_eq] at h
+  rw [gen_registry_init_eq]
+  cases hc : registryCheck (toModel r) <;> simp [hc, errOf] at h ⊢
+
+open RegistryGen RegistryGenEq in
+/-- acceptance, over the generated definitions: the generated `policy` lookup answers the evaluation network of a group
+    flagged as policy, and every evolvable attribute is in the generated `all_registered` -/
+theorem C02_source_translation_registry_accepted_sound (r : RegistryData) (h : registryAccepted r = true) :
+    r.registry.groups ≠ [] ∧ (∃ e, policy r.registry = some e ∧ ∃ g ∈ r.registry.groups, g.policy = true ∧ g.eval = e) ∧
+    ∀ a ∈ r.evolvable, a ∈ all_registered r.registry := by
+  obtain ⟨h1, ⟨e, he, g, hg, hp, hge⟩, h3, _⟩ := C02_registry_accepted_sound _ ((gen_registryAccepted_iff r).mp h)
+  refine ⟨by simpa [toModel] using h1, ⟨e, by rw [gen_policy_eq]; exact he, ?_⟩, by rw [gen_all_registered_eq]; exact h3⟩
+  simp only [toModel, List.mem_map] at hg
+  obtain ⟨g0, hg0, rfl⟩ := hg
+  exact ⟨g0, hg0, hp, hge⟩
+
+open RegistryGen RegistryGenEq in
+/-- the generated validation is invariant under the order of registration of groups and optimizers -/
+theorem C02_source_translation_registry_order_invariant (r s : RegistryData) (hg : r.registry.groups.Perm s.registry.groups)
+    (ho : r.registry.optimizers.Perm s.registry.optimizers) (he : r.evolvable = s.evolvable) (ha : r.attrs = s.attrs)
+    (hh : r.registry.hp_config = s.registry.hp_config) : registryAccepted r = registryAccepted s := by
+  rw [Bool.eq_iff_iff, gen_registryAccepted_iff, gen_registryAccepted_iff]
+  exact C02_registry_validation_order_invariant _ _ (hg.map _) (ho.map _) he ha hh
+
+open RegistryGen RegistryGenEq in
+/-- `__setattr__`: assigning an `OptimizerWrapper` registers an optimizer under the attribute's name, an accepted registry
+    stays accepted, and a SECOND wrapper assigned under a registered name leaves the registered configuration as it was
+    (`regWith …` below: the stale networks / lr stay in the registry) -/
+theorem C02_source_translation_registry_setattr (r : RegistryData) (name : Nat) (w : Wrap) :
+    name ∈ (setattr_ r name (some w)).registry.optimizers.map (·.name) ∧
+    (registryAccepted r = true → registryAccepted (setattr_ r name (some w)) = true) ∧
+    (setattr_ (setattr_ r name (some w)) name (some { w with network_names := [] })).registry
+      = (setattr_ r name (some w)).registry := by
+  have hmem : name ∈ (setattr_ r name (some w)).registry.optimizers.map (·.name) := by
+    by_cases h : (r.registry.optimizers.map fun c => c.name).contains name = true
+    · have hc : ((some w).isSome && !(List.map (fun config => config.name) r.registry.optimizers).contains name) = false := by
+        simp only [h]; rfl
+      simp only [setattr_, flatMap_single, hc]
+      simpa using h
+    · have h0 : (r.registry.optimizers.map fun c => c.name).contains name = false := by simpa using h
+      have hc : ((some w).isSome && !(List.map (fun config => config.name) r.registry.optimizers).contains name) = true := by
+        simp only [h0]; rfl
+      simp only [setattr_, flatMap_single, hc]
+      simp [register_optimizer]
+  refine ⟨hmem, fun h => ?_, ?_⟩
+  · rw [gen_registryAccepted_iff, gen_setattr_eq]
+    exact (C02_registry_accepted_monotone _ ((gen_registryAccepted_iff r).mp h) ⟨0, none, false, false⟩ name _).2
+  · have h : ((setattr_ r name (some w)).registry.optimizers.map fun c => c.name).contains name = true := by
+      simpa using hmem
+    have hc : ((some ({ w with network_names := [] } : Wrap)).isSome &&
+        !(List.map (fun config => config.name) (setattr_ r name (some w)).registry.optimizers).contains name) = false := by
+      simp only [h]; rfl
+    generalize setattr_ r name (some w) = r1 at hc ⊢
+    simp only [setattr_, flatMap_single, hc]
+    simp
+
+/-! ### the registry of a model agent: which hypotheses of `EnvOK` / `DescOK` acceptance discharges -/
+
+open RegistryGen MutWireGenEq in
+/-- the registry-as-data of model agent `a` (optimizer `q` is attribute `a.nets.length + q`) -/
+def regDataOf (a : Agent) (hps attrs : List Nat) : RegistryData :=
+  { registry := { groups := (groupsOf (roles a.nets)).map fun g =>
+                    { eval := g.eval, shared := g.shared, policy := g.policy, multiagent := false },
+                  optimizers := a.opts.mapIdx fun q o => { name := a.nets.length + q, networks := o.nets, lr := o.lr, multiagent := o.multi },
+                  hooks := [], hp_config := some hps },
+    evolvable := List.range (a.nets.length + a.opts.length), attrs := attrs }
+
+open RegistryGen RegistryGenEq MutWireGenEq in
+/-- **Acceptance discharges the existence half of `EnvOK.policy` and `EnvOK.polIn`**: an agent whose registry the
+    constructor accepts has a network attribute, inside the agent, that is an evaluation network flagged as policy, and
+    the generated `registry.policy` answers such an attribute. -/
+theorem C02_source_translation_registry_policy_exists (a : Agent) (hps attrs : List Nat)
+    (h : registryAccepted (regDataOf a hps attrs) = true) :
+    ∃ p, policy (regDataOf a hps attrs).registry = some p ∧ p < a.nets.length ∧ (roles a.nets)[p]? = some (Role.eval true) := by
+  obtain ⟨_, ⟨e, he, g, hg, hp, hge⟩, _⟩ := C02_source_translation_registry_accepted_sound _ h
+  refine ⟨e, he, ?_⟩
+  simp only [regDataOf, List.mem_map] at hg
+  obtain ⟨g0, hg0, rfl⟩ := hg
+  simp only [groupsOf, List.mem_map] at hg0
+  obtain ⟨k, hk, rfl⟩ := hg0
+  simp only at hp hge
+  subst hge
+  have hr : (roles a.nets)[k]? = some (Role.eval true) := by simpa using hp
+  refine ⟨?_, hr⟩
+  have := (List.getElem?_eq_some_iff.mp hr).1
+  simpa [roles] using this
+
+def mkNet (r : Role) (c : Nat) : NetAttr :=
+  { role := r, mods := [{ arch := (0, 0, 0), wEnc := (0, 0, 0), wHead := (0, 0, 0), enc := [c], head := [c + 1], det := .none, lastMut := none }] }
+
+/-- two evaluation networks flagged as policy, one optimizer each -/
+def agentTwoPolicies : Agent :=
+  { index := 0, nets := [mkNet (.eval true) 0, mkNet (.eval true) 2],
+    opts := [{ nets := [0], lr := 0, multi := false, groups := [] }, { nets := [1], lr := 0, multi := false, groups := [] }],
+    lrs := [1 / 1000], hook := .none, actExempt := false, label := "" }
+
+/-- actor, its target, and an optimizer registered for the TARGET; a list optimizer registered for two attributes -/
+def agentBadOpts : Agent :=
+  { index := 0, nets := [mkNet (.eval true) 0, mkNet (.shared 0) 2, mkNet (.eval false) 4],
+    opts := [{ nets := [1], lr := 0, multi := false, groups := [] }, { nets := [0, 2], lr := 0, multi := true, groups := [] }],
+    lrs := [1 / 1000], hook := .none, actExempt := false, label := "" }
+
+open RegistryGen RegistryGenEq MutWireGenEq in
+/-- **The uniqueness half of `EnvOK.policy`, `EnvOK.opts` (`OptShapeOK`) and `DescOK.optsEval` are NOT discharged**:
+    the constructor accepts the registry of an agent with two policies (no `p` with `PolicyAt a p`), and of an agent with
+    an optimizer over a target network and a list optimizer over two attributes. -/
+theorem C02_source_translation_registry_hypotheses_witness :
+    (registryAccepted (regDataOf agentTwoPolicies [] []) = true ∧ ¬ ∃ p, PolicyAt agentTwoPolicies p) ∧
+    (registryAccepted (regDataOf agentBadOpts [] []) = true ∧ ¬ OptShapeOK agentBadOpts.opts ∧ ¬ DescOK (desc agentBadOpts)) := by
+  refine ⟨⟨by decide +kernel, ?_⟩, by decide +kernel, ?_, ?_⟩
+  · rintro ⟨p, hp⟩
+    have h0 := (hp 0 (mkNet (.eval true) 0) rfl).mp rfl
+    have h1 := (hp 1 (mkNet (.eval true) 2) rfl).mp rfl
+    omega
+  · intro h
+    have := h { nets := [0, 2], lr := 0, multi := true, groups := [] } (by simp [agentBadOpts]) rfl
+    simp at this
+  · intro h
+    obtain ⟨b, hb⟩ := h.optsEval [1] (by simp [desc, agentBadOpts]) 1 (by simp)
+    simp [desc, roles, agentBadOpts, mkNet] at hb
 
 end Coherence
